@@ -400,3 +400,5 @@ func newController(fan fans.Fan, loop control_loop.ControlLoop, pers persistence
 	}
 	return c
 }
+
+func vclockAdvance(ms int64) { advance(time.Duration(ms) * time.Millisecond) }
